@@ -680,10 +680,9 @@ class Den:
     def _cut(self, z, what):
         """Principal branch with the cut along the negative real axis."""
         if MP.re(z) < 0 and abs(MP.im(z)) <= TIE * abs(z):
-            # an exactly real negative argument has an unambiguous principal value unless the float side may
-            # carry a negative zero imaginary part (complex data)
-            if self.cplx or self.sh["ctyped"] or MP.im(z) != 0 or self.dlevel:
-                self.flag("branch-cut:" + what)
+            # on the cut the float side decides by the sign of a zero imaginary part, by the type of the number
+            # (math vs cmath, numpy scalars return nan) - none of which is the expression's mathematical content
+            self.flag("branch-cut:" + what)
         if abs(z) < 1e-12:
             self.flag("branch-point:" + what)
 
